@@ -28,8 +28,10 @@ Proof.
   - intro x. rewrite Ec. apply (x_pos _ _ HX).
   - intro x. unfold cval, nk, ckeys. rewrite Ec. apply (x_count _ _ HX).
   - intros x H. rewrite Hic in H. rewrite (sv_fs _ _ S). apply (x_cdir _ _ HX x H).
-  - intros t Ht. destruct (x_tgt _ _ HX t Ht) as (A & B & C). split; [exact A|]. split; [rewrite (sv_fs _ _ S); exact B|].
-    destruct (mem_path t (bd_removed_files (w_bd w'))) eqn:E; [|reflexivity]. apply (q_rf _ _ _ F) in E. congruence.
+  - intros x H1 H2. rewrite Hic in H1. rewrite (q_created _ _ _ F) in H2. rewrite (sv_fs _ _ S). apply (x_ncdir _ _ HX x H1 H2).
+  - intros t Ht. destruct (x_tgt _ _ HX t Ht) as (A & B & C). split; [exact A|]. split.
+    + destruct (mem_path t (bd_removed_files (w_bd w'))) eqn:E; [|reflexivity]. apply (q_rf _ _ _ F) in E. congruence.
+    + rewrite (sv_fs _ _ S), Hic, (q_created _ _ _ F), (sv_dead _ _ S). exact C.
   - intros x n H1 H2. rewrite (q_created _ _ _ F) in H1. rewrite (sv_fs _ _ S) in H2.
     rewrite Hic, (invis_same _ _ _ S). apply (x_kids _ _ HX x n H1 H2).
   - intros x n H1 H2. rewrite (q_created _ _ _ F) in *. rewrite Hic in H2. apply (x_cc _ _ HX x n H1 H2).
